@@ -278,6 +278,9 @@ def oracle_ref(cases, impl, model):
 def run_compiled(pid, tier, seed, cases, oracle, rule, replay=None, extra=None):
     """like pcheck.run_check, but the implementation side is the compiled surface batch"""
     import json, time
+    if pcheck.COLLECT is not None:
+        pcheck.COLLECT.extend((pid, c) for c in cases)
+        return 0
     res = C.Result(pid, tier, seed)
     pr = C.proof_step(res, pid, CONE)
     if replay:
@@ -451,6 +454,16 @@ def run_c15(tier, seed, replay=None):
         body = fix_closures([g.goal(list(q), 3) for _ in range(rnd.randint(1, 3))])
         if rnd.random() < 0.55:
             body = [scoped(rnd, 2, list(q)) for _ in range(rnd.randint(1, 2))]
+        elif rnd.random() < 0.35:
+            # a pattern name equal to the name of the matched variable: the pattern variable is new,
+            # the matched term is the outer one
+            l = rnd.choice(["x", "y", "l"])
+            val = rnd.choice([["list", 1, 2, 3], ["list", q[0], 2], ["ilist", 1, 2, q[-1]], ["list", ["list", 4], 5]])
+            arms = [["arm", ["pats", rnd.choice([["ilist", l, "_"], ["ilist", "_", l], ["list", l, "_", "_"], ["ilist", l, "w"]])],
+                     ["eq", q[0], rnd.choice([l, ["list", l, l]])]]]
+            if rnd.random() < 0.5:
+                arms.append(["arm", ["pats", l], ["eq", q[-1], ["list", l]]])
+            body = [["fresh", [l], ["eq", l, val], [rnd.choice(["match", "matche", "matcha", "matchu"]), l] + arms]]
         k = len(cases)
         cases.append(mk_case(DEFS, q, body, maxans=15, budget=2000, renamed_of=None))
         cnt = [0]
